@@ -385,8 +385,37 @@ def hash_seeds(ctx, n_cases):
     if digests:
         ctx.evaluations += sum(int(v.split()[1]) for v in digests.values())
     if len(set(digests.values())) > 1:
-        ctx.violation(dict(battery_seed=battery_seed, n_cases=n_cases, digests=digests), "verdicts/messages depend on the interpreter's hash seed", {"kind": "hash_seed"})
+        # locate the first evaluation whose outcome differs between two hash seeds
+        s0 = seeds[0]
+        s1 = next(s for s in seeds if digests.get(s) != digests.get(s0))
+        first = hash_seed_difference(battery_seed, n_cases, s0, s1)
+        ctx.violation(dict(battery_seed=battery_seed, n_cases=n_cases, digests=digests, hash_seeds=[s0, s1], first_difference=first),
+                      "verdicts/messages depend on the interpreter's hash seed" + (f": {first['what']}" if first else ""), {"kind": "hash_seed"})
     ctx.extra["hash_seed_digests"] = digests
+
+
+def hash_seed_difference(battery_seed, n_cases, s0, s1):
+    """Re-run the battery under two hash seeds with every evaluation written out; the first record that differs."""
+    import ast
+    d = common.scratch_dir()
+    try:
+        recs = []
+        for s in (s0, s1):
+            f = d / f"dump{s}.txt"
+            env = dict(os.environ, PYTHONHASHSEED=str(s), PYTHONPATH=str(common.REPO / "src"))
+            subprocess.run([sys.executable, "-B", str(VERIF / "harness" / "seed_battery.py"), str(battery_seed), str(n_cases), str(f)], env=env, capture_output=True, timeout=1200)
+            recs.append(f.read_text().splitlines() if f.exists() else [])
+        for a, b in zip(*recs):
+            if a != b:
+                ra, rb = ast.literal_eval(a), ast.literal_eval(b)
+                if ra[:-1] != rb[:-1]:
+                    return dict(what="the battery itself is not deterministic (harness problem)", a=a[:500], b=b[:500])
+                return dict(what=f"{ra[0]} gives {ra[-1][0]} under both seeds but the reports differ" if ra[-1][0] == rb[-1][0] else f"{ra[0]} gives {ra[-1][0]} under PYTHONHASHSEED={s0} and {rb[-1][0]} under {s1}",
+                            kind=ra[0], input=list(ra[1:-1]), outcome_a=list(ra[-1]), outcome_b=list(rb[-1]))
+        return None
+    finally:
+        import shutil
+        shutil.rmtree(d, ignore_errors=True)
 
 
 def run(ctx: Ctx):
@@ -414,5 +443,18 @@ def run(ctx: Ctx):
 
 def replay(ctx: Ctx, path: str) -> int:
     r = json.load(open(path))
+    if r.get("tags", {}).get("kind") == "hash_seed":
+        c = r["case"]
+        s0, s1 = c.get("hash_seeds", [0, 1])
+        outs = []
+        for s in (s0, s1):
+            env = dict(os.environ, PYTHONHASHSEED=str(s), PYTHONPATH=str(common.REPO / "src"))
+            p = subprocess.run([sys.executable, "-B", str(VERIF / "harness" / "seed_battery.py"), str(c["battery_seed"]), str(c["n_cases"])], env=env, capture_output=True, text=True, timeout=1200)
+            outs.append(p.stdout.strip())
+        print("digests under PYTHONHASHSEED=%s / %s: %s" % (s0, s1, outs))
+        if outs[0] != outs[1] or not outs[0]:
+            print(f"VIOLATION property=C15 replay={path}")
+            return 1
+        return 0
     print("C15 replays are histories/seeds; re-run ./check C15 with VERIF_SEED=%s; case: %s" % (r.get("seed"), json.dumps(r["case"])[:600]))
     return 2
